@@ -14,7 +14,7 @@ use serde_json::json;
 use sm9_core::Group;
 
 pub fn def() -> PropDef {
-    let mut required = crate::runner::req(&["k:boundary", "k:pow2", "k:runs", "k:sparse", "k:dense", "k:small", "k:uniform", "k:uniform512", "k:endo-combo", "k:endo-prefix"]);
+    let mut required = crate::runner::req(&["k:boundary", "k:pow2", "k:runs", "k:sparse", "k:dense", "k:small", "k:uniform", "k:uniform512", "k:endo-combo", "k:endo-prefix", "k:stored-pattern"]);
     for g in ["G1", "G2"] {
         for rep in ["affine", "libjac", "rescaled", "zero-canon", "zero-leftover", "zero-arb"] {
             required.push(format!("cell:{}|{}", g, rep));
